@@ -16,7 +16,7 @@ LEVEL = "exploration"
 RULE = ("typed E5 trees from seeded boundary-biased generators (all leaf types x constructor input forms x element "
         "counts incl. length-byte boundaries, homogeneous arrays, keyed records, ANYVALUE nestings, every catalogued "
         "data item x every allowed type); a case is distinct by (class, input form, canonical reference bytes) and "
-        "non-trivial when the class accepted the value so that all four oracles ran")
+        "non-trivial when the class accepted the value so that all four oracles ran; plus: variables built from a list that the caller changes afterwards")
 ASSUMPTIONS = ["the reference codec lib/e5ref.py implements SEMI E5 section 9 item encoding correctly",
                "values the class rejects at construction are outside the property (counted, not judged)"]
 LEVEL_TEXT = ("Differential runtime monitoring: the real variable classes encode/decode tens of thousands of generated "
